@@ -9,6 +9,13 @@ def allowOf (script : String) (ns : String) : Bool :=
   else if script.startsWith "allow:" then (script.drop 6).toString == ns
   else false
 
+/-- `allowfirst:<ns>` / `errsecond:<ns>`: only the first review of a request (in `<ns>`) is allowing; every later one is
+    denied, respectively fails -/
+def allowOfN (script : String) (ns : String) (i : Nat) : Bool :=
+  if script.startsWith "allowfirst:" then i == 0 && (script.drop 11).toString == ns
+  else if script.startsWith "errsecond:" then i == 0 && (script.drop 10).toString == ns
+  else allowOf script ns
+
 /-- `C20 <routeHex> <hdr> <script> <reqNs>`: the answer of the handler's gates, from the regenerated table -/
 def handleC20 (toks : List String) : String :=
   match toks.take 4 with
@@ -17,7 +24,7 @@ def handleC20 (toks : List String) : String :=
     | none => "bad-op"
     | some r =>
       -- every gate's namespace expression evaluates to the namespace of the request
-      let st := gateStatus (hdr == "1") (fun _ => allowOf script reqNs) r.events
+      let st := gateStatusN (hdr == "1") (fun i => allowOfN script reqNs i) r.events 0
       if st == 401 then "gate=401" else if st == 403 then "gate=403" else "gate=pass"
   | _ => "bad-op"
 
